@@ -407,5 +407,5 @@ _base = acct_prop.make(
 _base['work'] = work
 globals().update(_base)
 COQ = ['Model/Num.v', 'Model/Calendar.v', 'Model/View.v', 'Model/Phases.v', 'Model/Check.v', 'Proofs/NumFacts.v', 'Proofs/CalendarFacts.v', 'Proofs/ViewFacts.v', 'Proofs/PhasesFacts.v',
-       'Gen/ApiPhases.v', 'Properties/C07.v']
-GEN = ['ApiPhases']
+       'Gen/ApiPhases.v', 'Gen/Calendar.v', 'Properties/C07.v']
+GEN = ['ApiPhases', 'Calendar']
